@@ -1,4 +1,5 @@
 import XpmVerif.Proofs.DeprecatedLoad
+import XpmVerif.Proofs.SerialGen2
 /-! C20 (with C12 / C01) — the loop through the loader closed inside the model.
 
     The recomputed location of a job directory is no longer an input of the jobs-tree model: it is *derived*
@@ -66,6 +67,31 @@ theorem fix_reaches_replacement_identifier {D : Type} (hc : HC D) (fl : Flags) (
   simp only [derivedParams, hrc] at hk
   obtain ⟨r, h1, h2⟩ := good_resolves (run_reachable_exact cl ks1 ks2 t k d _ hk hne hmem hu)
   exact ⟨r, h1, _, h2⟩
+
+/-- **the clean-up's rewritten `params.json` keeps the location** (`--fix --cleanup` writes
+    `job.__xpm__.__get_objects__([], …)` of the *loaded* job back before renaming the directory; the jobs-tree model
+    keeps the `Params` of the moved directory): loading the run's file under `cs1`, writing the loaded graph again
+    (`reloadTwice`: `regraph`) and loading that second file gives a graph whose recomputed identifier is still the
+    identifier of the job under the replacement classes — a later run of the command sees the moved directory as up to date. -/
+theorem cleanup_rewrite_keeps_identifier {D : Type} (hc : HC D) (fl : Flags) (infos : List ClassInfo)
+    (cs1 : List ClassDecl) (nodes : List CNode) (root : Nat)
+    (hwf : WF (CGraph.toGraph ⟨cs1, nodes⟩)) (hr : root < nodes.length)
+    (hok : ∀ n, Needed (CGraph.toGraph ⟨cs1, nodes⟩) [root] n → NodeOk (libOf cs1 infos) (sgraphOf infos ⟨cs1, nodes⟩) n)
+    (hm : (fl.metaWriteAll = true ∧ fl.metaReadAll = true) ∨
+      ∀ n, Needed (CGraph.toGraph ⟨cs1, nodes⟩) [root] n → ((CGraph.toGraph ⟨cs1, nodes⟩).node n).mflag ≠ some false)
+    (hi : fl.initRestored = true ∨
+      ∀ n, Needed (CGraph.toGraph ⟨cs1, nodes⟩) [root] n → ((CGraph.toGraph ⟨cs1, nodes⟩).node n).initTasks = [])
+    (hdn : DefaultsNeeded (CGraph.toGraph ⟨cs1, nodes⟩) [root]) :
+    ∃ L1 defs2 L2, reloadTwice fl (libOf cs1 infos) (sgraphOf infos ⟨cs1, nodes⟩) [root] = .ok (L1, defs2, L2) ∧
+      fullId hc (toGraph L2 nodes.length) root = (replacementLoc hc ⟨cs1, nodes⟩ root).2 := by
+  have hsz : (sgraphOf infos ⟨cs1, nodes⟩).g.size = nodes.length := by simp [sgraphOf, toGraph_size_nodes]
+  have hr' : root < (sgraphOf infos ⟨cs1, nodes⟩).g.size := by rw [hsz]; exact hr
+  obtain ⟨L1, defs2, L2, h1, h2⟩ := reloadTwice_fullId hc fl (libOf cs1 infos) (sgraphOf infos ⟨cs1, nodes⟩) root hwf hr' hok hm hi hdn
+  refine ⟨L1, defs2, L2, h1, ?_⟩
+  have h : (reclassWith (ultimate cs1) (fun _ => true) (⟨cs1, nodes⟩ : CGraph)).toGraph = (⟨cs1, nodes⟩ : CGraph).toGraph :=
+    toGraph_reclassWith _ _ ⟨cs1, nodes⟩ (eff_ultimate cs1)
+  rw [← hsz, h2]
+  simp only [replacementLoc, replaced, cFullId, h, sgraphOf]
 
 /-- the file-level repair (`fixTreeF`, driven by the decision function `action` that is regenerated from the source)
     has `fixTree` as its tree component: every theorem of C20 part (b) holds for it. -/
